@@ -87,6 +87,14 @@ def build_pool(seed, n_texts=640):
             pool.append({'api': 'glob.glob', 'pat': t, 'flags': ['EXTMATCH', 'IGNORECASE', 'GLOBSTAR'], 'bytes': True})
             pool.append({'api': 'pathlib.match', 'pat': t, 'flags': list(rng.choice([('EXTMATCH',), ('EXTMATCH', 'GLOBSTAR'), ('EXTMATCH', 'DOTMATCH')])), 'bytes': False})
             pool.append({'api': 'wcmatch', 'pat': t, 'flags': [], 'bytes': rng.random() < 0.3})
+    # texts with escapes: the same text under Windows / Unix style, with and without RAWCHARS, str and bytes (normalisation of the
+    # pattern text happens before parsing and must depend on all of these)
+    for t in fixed:
+        if '\\' in t:
+            for fs in (('FORCEWIN',), ('FORCEWIN', 'RAWCHARS'), ('FORCEUNIX', 'RAWCHARS'), ('FORCEUNIX',)):
+                for api in ('fnmatch.filter', 'glob.translate', 'fnmatch.match'):
+                    for b_ in (False, True):
+                        pool.append({'api': api, 'pat': t, 'flags': list(fs), 'bytes': b_})
     for i, c in enumerate(pool):
         c['id'] = i
     return pool
